@@ -131,6 +131,10 @@ def digest_obj(o, depth=0):
     """Content fingerprint of basis tuples / DiscreteFields / dicts / arrays / scalars."""
     if o is None:
         return "None"
+    if isinstance(o, np.ndarray) and hasattr(o, "astuple") and depth < 6:
+        # DiscreteField: an ndarray subclass carrying grad/div/curl/hess/... as attributes
+        return "DF(" + ",".join(digest_obj(None if c is None else np.asarray(c).view(np.ndarray), depth + 1)
+                                for c in o.astuple) + ")"
     if isinstance(o, np.ndarray):
         return digest_array(o)
     if isinstance(o, dict):
@@ -199,7 +203,9 @@ class Harness:
         self.step_timeout = step_timeout
         self.total_timeout = total_timeout
 
-        self.cond = threading.Condition(threading.Lock())   # the one lock
+        self.lock = threading.Lock()                        # the one lock
+        self.cond = threading.Condition(self.lock)          # scheduler / main wait here
+        self.cv_w = {}                                      # widx -> Condition(self.lock): worker w parks here
         self.log = []                          # (kind, tk, a, b, t)
         self.threads = {}                      # Thread object -> tk (small int); main thread = 0
         self.thread_objs = []                  # index tk -> Thread object
@@ -245,7 +251,12 @@ class Harness:
             self.abort = True
             self.abort_reason = reason
             self.watchdog = self.watchdog or watchdog
+        self._wake_all()
+
+    def _wake_all(self):
         self.cond.notify_all()
+        for cv in self.cv_w.values():
+            cv.notify_all()
 
     # ---- gate
     def _gate(self, kind, pair):
@@ -266,10 +277,13 @@ class Harness:
             self.widx_of[tk] = w
             self.claimed.add(w)
         self.waiting[w] = (kind, pair)
+        cv = self.cv_w.get(w)
+        if cv is None:
+            cv = self.cv_w[w] = threading.Condition(self.lock)
         self.cond.notify_all()
         t_end = time.monotonic() + self.total_timeout
         while not self.grant.get(w) and not self.abort and not self.free_after:
-            self.cond.wait(0.25)
+            cv.wait(0.5)
             if time.monotonic() > t_end:
                 self._set_abort("watchdog:gate-never-granted", watchdog=True)
         self.grant[w] = False
@@ -292,7 +306,7 @@ class Harness:
                     self._set_abort("worker-finished-before-its-scheduled-step")
                     return
                 self.grant[w] = True
-                self.cond.notify_all()
+                self.cv_w[w].notify_all()
                 ok = self.cond.wait_for(
                     lambda: (not self.grant[w] and (w in self.waiting or w in self.done_w)) or self.abort,
                     timeout=self.step_timeout)
@@ -303,7 +317,7 @@ class Harness:
                     return
                 self.steps_done += 1
             self.free_after = True
-            self.cond.notify_all()
+            self._wake_all()
 
     # ---- integrand wrapper
     def wrap_form(self):
